@@ -92,9 +92,27 @@ func VerifC01Docs() {
 			}
 		case 1:
 			k1, k2 := asciiKey("key", 1), asciiKey("key", 1)
-			if _, err := ds.PutAll(ctx, []interface{}{doc(k1), doc(k2)}); err != nil {
+			d1, d2 := doc(k1), doc(k2)
+			op, err := ds.PutAll(ctx, []interface{}{d1, d2})
+			if err != nil || op == nil {
 				vstub.Fail("C01 PutAll failed")
+				return
 			}
+			// the batch operation that was written IS the batch that was given: every key
+			// of the batch is a member, with the body of the LAST document given for it
+			// (whatever the store happened to hold before)
+			want, members := &c07State{}, &c07State{}
+			want.put(k1, d1["v"].(string)[0])
+			want.put(k2, d2["v"].(string)[0])
+			for _, m := range op.GetDocs() {
+				members.putRaw(m.GetKey(), m.GetValue())
+			}
+			vstub.Assert(len(members.keys) == len(want.keys), "C07 a batch put records one member per distinct key of the batch")
+			for n, k := range want.keys {
+				got, ok := members.get(k)
+				vstub.Assert(ok && got == want.vals[n], "C07 a batch put records, for every key of the batch, the last document given for it")
+			}
+			vstub.Cover("put-all")
 		case 2:
 			_, _ = ds.Delete(ctx, asciiKey("key", 1)) // refused when absent: fine
 		}
